@@ -1163,7 +1163,11 @@ func (r *realm) cleanSessionDetails(details wamp.Dict) wamp.Dict {
 			}
 		}
 	} else {
-		clean = details
+		// Always hand out a copy: the result leaves the realm in meta events
+		// and meta procedure results, while details remains the session's
+		// live, lock-protected state.
+		clean = make(wamp.Dict, len(details))
+		maps.Copy(clean, details)
 	}
 
 	// If there is no transport detail, all done.
@@ -1176,12 +1180,6 @@ func (r *realm) cleanSessionDetails(details wamp.Dict) wamp.Dict {
 	authDict := wamp.DictChild(transDict, "auth")
 	if authDict == nil {
 		return clean
-	}
-
-	// If a copy was not previously needed, it is now.
-	if !r.metaStrict {
-		clean = make(wamp.Dict, len(details))
-		maps.Copy(clean, details)
 	}
 
 	// If details.transport.auth exists, then provide version of transport
